@@ -1,22 +1,34 @@
 /-
 C05 — parameters are decoded as the inverse of OpenAPI style serialisation.
-Property theorems only (model and specification: KinModel/Style.lean; helper lemmas: KinModel/Lemmas/C05*.lean).
+Property theorems only (models and specification: KinModel/Style.lean, StyleNest.lean, StyleContent.lean; helper
+lemmas: KinModel/Lemmas/C05*.lean).
 
 Full-strength goal (kept visible):
-  ∀ legal cell c, leaf schema l, texts t with `encodable c name t`:
-      decodeStyled impl c name req (encode c name t) (.leaf l) = ⟨the value t stands for, true, none⟩
-  ∧ validateParameter p r = validateSpec p r.
-What is proved: the round trip per location and shape for *both* flavours (code / specification) under the
-explicit `Encodable` side conditions; `validateParameter = validateSpec` is NOT a theorem of the pinned code:
-it fails inside four decidable exclusion classes, each with a kernel-checked witness below
-(CookieExplode #31, EnumGoType #42, AddlShadow, QueryObjAbsent); outside them the two flavours agree
-layer by layer (`parsePrim_eq_specPrim` — full strength since the repair of F-C05-3 —, `visitPS_impl_eq_spec_partial`, `cookieArr_flavour_partial`, `makeObject_shadow_partial`).
+  ∀ legal cell c, schema s, texts t with `encodable c name t`:
+      decodeStyled impl c name req (encode c name t) s = ⟨the value t stands for, true, none⟩
+  ∧ ∀ p r, validateParameter p r = validateSpec p r.
+What is proved:
+  * the round trip per location and shape for *both* flavours (code / specification) under the explicit `Encodable`
+    side conditions, lifted through allOf / anyOf / oneOf (`decodeStyled_anyOf_first`, `…_oneOf_last`, `…_allOf_*`),
+    and for nested deepObject at every depth (`nest_roundtrip`);
+  * `validateParameter = validateSpec` is NOT a theorem of the pinned code: it fails inside decidable exclusion classes,
+    each with a kernel-checked witness below (CookieExplode #31, EnumGoType #42, QueryObjAbsent, QueryObjNoProps,
+    DeepKeyJunk, UntypedSchema; for content-described parameters ContentMissing, ContentCookieAbsent). Outside them it IS
+    proved: `decodeStyled_impl_eq_spec_partial` (every schema, compositions included), `validate_eq_spec_partial`
+    (every single-leaf schema), `validate_eq_spec_enumfree_partial` (every composition without enums),
+    `respHeader_eq_spec_partial`, `content_flavour_partial`;
+  * repaired and therefore class-free: primitive texts (`parsePrim_eq_specPrim`, F-C05-3 / 53dfa1b) and the object
+    builder (`makeObject` has one flavour, `makeObject_lookup_addl`, `addl_shadow_regression`, F-C05-4 / 997bea5).
 -/
 import KinModel.Style
 import KinModel.Lemmas.C05Str
 import KinModel.Lemmas.C05Dec
 import KinModel.Lemmas.C05Cells
+import KinModel.Lemmas.C05Eq
+import KinModel.Lemmas.C05Nest
+import KinModel.StyleContent
 import KinModel.Gen.StyleCells
+import KinModel.Gen.DecoderFmt
 namespace KinModel.Style
 
 /-! ### primitive texts -/
@@ -248,10 +260,10 @@ theorem parseArr_err (prim : PT → Str → PR) (t : PT) (pre : List Str) (vs : 
 /-! ### decode ∘ encode, objects -/
 
 /-- "a,1,b,x" (explode=false in every location, path simple/label/matrix, header, cookie, query form) -/
-theorem objOut_flat_roundtrip (prim : PT → Str → PR) (shadow : Bool) (kvs : List (Str × Str)) (hne : kvs ≠ [])
+theorem objOut_flat_roundtrip (prim : PT → Str → PR) (kvs : List (Str × Str)) (hne : kvs ≠ [])
     (hfree : ∀ kv ∈ kvs, ',' ∉ kv.1 ∧ ',' ∉ kv.2) (sprops : List (Str × PS)) (addl : Option PS) :
-    objOut prim shadow true (joinL [','] (flatKV kvs)) [','] [','] sprops addl =
-      match makeObject prim shadow kvs sprops addl with
+    objOut prim true (joinL [','] (flatKV kvs)) [','] [','] sprops addl =
+      match makeObject prim kvs sprops addl with
       | none => ⟨.nilObj, true, some .parse⟩
       | some res => ⟨.obj res, true, none⟩ := by
   unfold objOut
@@ -259,10 +271,10 @@ theorem objOut_flat_roundtrip (prim : PT → Str → PR) (shadow : Bool) (kvs : 
   rfl
 
 /-- "a=1,b=x" / ".a=1.b=x" / ";a=1;b=x" (explode=true: path simple/label/matrix, header) -/
-theorem objOut_eq_roundtrip (prim : PT → Str → PR) (shadow : Bool) (p0 : Char) (hp : p0 ≠ '=') (kvs : List (Str × Str)) (hne : kvs ≠ [])
+theorem objOut_eq_roundtrip (prim : PT → Str → PR) (p0 : Char) (hp : p0 ≠ '=') (kvs : List (Str × Str)) (hne : kvs ≠ [])
     (hfree : ∀ kv ∈ kvs, p0 ∉ kv.1 ∧ p0 ∉ kv.2 ∧ '=' ∉ kv.1 ∧ '=' ∉ kv.2) (sprops : List (Str × PS)) (addl : Option PS) :
-    objOut prim shadow true (joinL [p0] (eqKV kvs)) [p0] ['='] sprops addl =
-      match makeObject prim shadow kvs sprops addl with
+    objOut prim true (joinL [p0] (eqKV kvs)) [p0] ['='] sprops addl =
+      match makeObject prim kvs sprops addl with
       | none => ⟨.nilObj, true, some .parse⟩
       | some res => ⟨.obj res, true, none⟩ := by
   unfold objOut
@@ -271,8 +283,8 @@ theorem objOut_eq_roundtrip (prim : PT → Str → PR) (shadow : Bool) (p0 : Cha
 
 /-- without an additionalProperties schema the decoded object holds, for every declared property, the value
 its text stands for — independent of the order in which the pairs were written -/
-theorem makeObject_lookup (prim : PT → Str → PR) (shadow : Bool) (props : List (Str × Str)) (sprops : List (Str × PS))
-    (res : List (Str × PV)) (hnd : (sprops.map Prod.fst).Nodup) (h : makeObject prim shadow props sprops none = some res) (k : Str) :
+theorem makeObject_lookup (prim : PT → Str → PR) (props : List (Str × Str)) (sprops : List (Str × PS))
+    (res : List (Str × PV)) (hnd : (sprops.map Prod.fst).Nodup) (h : makeObject prim props sprops none = some res) (k : Str) :
     res.lookup k = propVal prim props sprops k := by
   unfold makeObject at h
   cases hb : buildProps prim props sprops with
@@ -281,10 +293,45 @@ theorem makeObject_lookup (prim : PT → Str → PR) (shadow : Bool) (props : Li
     simp [hb] at h; subst h
     exact buildProps_lookup prim props sprops base hnd hb k
 
+/-- … and with an additionalProperties schema (full strength since the repair of F-C05-4): a declared key holds the
+value decoded with its *own* schema, an undeclared key the value decoded with the additionalProperties schema — for
+every schema, every request, every order of the pairs -/
+theorem makeObject_lookup_addl (prim : PT → Str → PR) (props : List (Str × Str)) (sprops : List (Str × PS)) (a : PS)
+    (res : List (Str × PV)) (hnd : (sprops.map Prod.fst).Nodup) (h : makeObject prim props sprops (some a) = some res) (k : Str) :
+    res.lookup k = if hasKey k sprops then propVal prim props sprops k else addlVal prim props a k := by
+  unfold makeObject at h
+  cases hb : buildProps prim props sprops with
+  | none => simp [hb] at h
+  | some base =>
+    simp only [hb] at h
+    cases he : buildAddl prim props a ((dedup (props.map Prod.fst)).filter (fun k => !hasKey k sprops)) with
+    | none => simp [he] at h
+    | some extra =>
+      simp [he] at h; subst h
+      have hbase := buildProps_lookup prim props sprops base hnd hb k
+      have hextra := buildAddl_lookup prim props a _ extra ((dedup_nodup _).filter _) he k
+      rw [List.lookup_append, hbase, hextra]
+      cases hk : hasKey k sprops with
+      | true => simp [hk]
+      | false =>
+        have hpv : propVal prim props sprops k = none := by
+          simp [propVal, lookup_none_of_not_hasKey k sprops hk]
+        simp only [hpv, Option.none_or, List.mem_filter, mem_dedup, hk, Bool.not_false, and_true, Bool.false_eq_true, if_false]
+        split
+        · rfl
+        · next hm => simp [addlVal, lookupLast_none_of_not_mem k props hm]
+
+/-- in particular a declared property never depends on the additionalProperties schema (the general form of the
+former witness of F-C05-4) -/
+theorem makeObject_declared_ignores_addl (prim : PT → Str → PR) (props : List (Str × Str)) (sprops : List (Str × PS)) (a : PS)
+    (res : List (Str × PV)) (hnd : (sprops.map Prod.fst).Nodup) (h : makeObject prim props sprops (some a) = some res)
+    (k : Str) (hk : hasKey k sprops = true) : res.lookup k = propVal prim props sprops k := by
+  rw [makeObject_lookup_addl prim props sprops a res hnd h k, if_pos hk]
+
 /-- an odd number of comma-separated items is never an object (explode=false): ParseError -/
-theorem objOut_odd_is_parse_error (prim : PT → Str → PR) (shadow found : Bool) (src : Str) (sprops : List (Str × PS)) (addl : Option PS)
+theorem objOut_odd_is_parse_error (prim : PT → Str → PR) (found : Bool) (src : Str) (sprops : List (Str × PS)) (addl : Option PS)
     (h : (splitOn [','] src).length % 2 = 1) :
-    objOut prim shadow found src [','] [','] sprops addl = ⟨.nilObj, found, some .parse⟩ := by
+    objOut prim found src [','] [','] sprops addl = ⟨.nilObj, found, some .parse⟩ := by
   unfold objOut propsFromString
   simp [pairUp_none_of_odd _ h]
 
@@ -301,9 +348,9 @@ theorem query_object_explode_roundtrip (fl : Flavour) (hfl : fl.absentAware = fa
     (sprops : List (Str × PS)) (rq : List Str) (addl : Option PS) :
     ∃ r, encode ⟨.query, .form, true⟩ name (.obj kvs) = some r ∧
       decodeStyled fl ⟨.query, .form, true⟩ name req r (.leaf (.obj sprops rq addl)) =
-        match makeObject fl.prim fl.addlShadow kvs sprops addl with
+        match makeObject fl.prim kvs sprops addl with
         | none => ⟨.nilObj, false, some .parse⟩
-        | some res => ⟨.obj res, queryObjFound sprops kvs res, none⟩ := by
+        | some res => ⟨.obj res, objFound fl.presenceAware sprops res (queryObjFound sprops kvs res), none⟩ := by
   have hfa : fl.absentAware = false := hfl
   have hfv : ∀ l : List (Str × Str), firstVals (l.map (fun kv => (kv.1, [kv.2]))) = l := by
     intro l
@@ -324,7 +371,7 @@ theorem path_object_roundtrip (fl : Flavour) (name : Str) (st : Sty) (req : Bool
     (kvs : List (Str × Str)) (henc : encodable ⟨.path, st, false⟩ name (.obj kvs) = true) :
     ∃ r, encode ⟨.path, st, false⟩ name (.obj kvs) = some r ∧
       decodeStyled fl ⟨.path, st, false⟩ name req r (.leaf (.obj sprops rq addl)) =
-        match makeObject fl.prim fl.addlShadow kvs sprops addl with
+        match makeObject fl.prim kvs sprops addl with
         | none => ⟨.nilObj, true, some .parse⟩
         | some res => ⟨.obj res, true, none⟩ := by
   have hne : kvs ≠ [] := by
@@ -352,15 +399,15 @@ theorem path_object_roundtrip (fl : Flavour) (name : Str) (st : Sty) (req : Bool
   · refine ⟨{ path := some (joinL [','] (flatKV kvs)) }, by simp [encode, encPath], ?_⟩
     simp only [decodeStyled, earlyAbsent, decodeValue, decodeLeaf, pathObj, pathObjFmt, pathRaw_some _ hj, cutPrefix,
       List.isPrefixOf, List.length_nil, List.drop_zero]
-    simpa using objOut_flat_roundtrip fl.prim fl.addlShadow kvs hne hfree sprops addl
+    simpa using objOut_flat_roundtrip fl.prim kvs hne hfree sprops addl
   · have hraw : ['.'] ++ joinL [','] (flatKV kvs) ≠ [] := by simp
     refine ⟨{ path := some (['.'] ++ joinL [','] (flatKV kvs)) }, by simp [encode, encPath], ?_⟩
     simp only [decodeStyled, earlyAbsent, decodeValue, decodeLeaf, pathObj, pathObjFmt, pathRaw_some _ hraw, cutPrefix_append]
-    simpa using objOut_flat_roundtrip fl.prim fl.addlShadow kvs hne hfree sprops addl
+    simpa using objOut_flat_roundtrip fl.prim kvs hne hfree sprops addl
   · have hraw : semi name ++ joinL [','] (flatKV kvs) ≠ [] := by simp [semi]
     refine ⟨{ path := some (semi name ++ joinL [','] (flatKV kvs)) }, by simp [encode, encPath], ?_⟩
     simp only [decodeStyled, earlyAbsent, decodeValue, decodeLeaf, pathObj, pathObjFmt, pathRaw_some _ hraw, cutPrefix_append]
-    simpa using objOut_flat_roundtrip fl.prim fl.addlShadow kvs hne hfree sprops addl
+    simpa using objOut_flat_roundtrip fl.prim kvs hne hfree sprops addl
 
 /-- header, explode=true: "a=1,b=x" -/
 theorem header_object_explode_roundtrip (fl : Flavour) (name : Str) (req : Bool)
@@ -368,7 +415,7 @@ theorem header_object_explode_roundtrip (fl : Flavour) (name : Str) (req : Bool)
     (kvs : List (Str × Str)) (henc : encodable ⟨.header, .simple, true⟩ name (.obj kvs) = true) :
     ∃ r, encode ⟨.header, .simple, true⟩ name (.obj kvs) = some r ∧
       decodeStyled fl ⟨.header, .simple, true⟩ name req r (.leaf (.obj sprops rq addl)) =
-        match makeObject fl.prim fl.addlShadow kvs sprops addl with
+        match makeObject fl.prim kvs sprops addl with
         | none => ⟨.nilObj, true, some .parse⟩
         | some res => ⟨.obj res, true, none⟩ := by
   have hne : kvs ≠ [] := by
@@ -380,7 +427,7 @@ theorem header_object_explode_roundtrip (fl : Flavour) (name : Str) (req : Bool)
     exact ⟨this.1.1.1, this.1.1.2, this.1.2, this.2⟩
   refine ⟨{ header := some [joinL [','] (eqKV kvs)] }, by simp [encode, encHeader], ?_⟩
   simp only [decodeStyled, earlyAbsent, decodeValue, decodeLeaf, headerObj, headerRaw]
-  simpa using objOut_eq_roundtrip fl.prim fl.addlShadow ',' (by decide) kvs hne hfree sprops addl
+  simpa using objOut_eq_roundtrip fl.prim ',' (by decide) kvs hne hfree sprops addl
 
 /-- header explode=false, cookie (where the decoder does not refuse the cell) and query form explode=false: "a,1,b,x" -/
 theorem header_object_roundtrip (fl : Flavour) (name : Str) (req : Bool)
@@ -388,7 +435,7 @@ theorem header_object_roundtrip (fl : Flavour) (name : Str) (req : Bool)
     (kvs : List (Str × Str)) (henc : encodable ⟨.header, .simple, false⟩ name (.obj kvs) = true) :
     ∃ r, encode ⟨.header, .simple, false⟩ name (.obj kvs) = some r ∧
       decodeStyled fl ⟨.header, .simple, false⟩ name req r (.leaf (.obj sprops rq addl)) =
-        match makeObject fl.prim fl.addlShadow kvs sprops addl with
+        match makeObject fl.prim kvs sprops addl with
         | none => ⟨.nilObj, true, some .parse⟩
         | some res => ⟨.obj res, true, none⟩ := by
   have hne : kvs ≠ [] := by
@@ -400,14 +447,14 @@ theorem header_object_roundtrip (fl : Flavour) (name : Str) (req : Bool)
     exact ⟨this.1.1.1, this.1.1.2⟩
   refine ⟨{ header := some [joinL [','] (flatKV kvs)] }, by simp [encode, encHeader], ?_⟩
   simp only [decodeStyled, earlyAbsent, decodeValue, decodeLeaf, headerObj, headerRaw]
-  simpa using objOut_flat_roundtrip fl.prim fl.addlShadow kvs hne hfree sprops addl
+  simpa using objOut_flat_roundtrip fl.prim kvs hne hfree sprops addl
 
 theorem cookie_object_roundtrip_partial (fl : Flavour) (name : Str) (ex req : Bool) (hck : (fl.cookieExplodeBad && ex) = false)
     (sprops : List (Str × PS)) (rq : List Str) (addl : Option PS)
     (kvs : List (Str × Str)) (henc : encodable ⟨.cookie, .form, ex⟩ name (.obj kvs) = true) :
     ∃ r, encode ⟨.cookie, .form, ex⟩ name (.obj kvs) = some r ∧
       decodeStyled fl ⟨.cookie, .form, ex⟩ name req r (.leaf (.obj sprops rq addl)) =
-        match makeObject fl.prim fl.addlShadow kvs sprops addl with
+        match makeObject fl.prim kvs sprops addl with
         | none => ⟨.nilObj, true, some .parse⟩
         | some res => ⟨.obj res, true, none⟩ := by
   have hne : kvs ≠ [] := by
@@ -419,7 +466,7 @@ theorem cookie_object_roundtrip_partial (fl : Flavour) (name : Str) (ex req : Bo
     exact ⟨this.1.1.1, this.1.1.2⟩
   refine ⟨{ cookie := some (joinL [','] (flatKV kvs)) }, by simp [encode, encCookie], ?_⟩
   simp only [decodeStyled, earlyAbsent, decodeValue, decodeLeaf, cookieObj, hck]
-  simpa using objOut_flat_roundtrip fl.prim fl.addlShadow kvs hne hfree sprops addl
+  simpa using objOut_flat_roundtrip fl.prim kvs hne hfree sprops addl
 
 /-- the three path styles, explode=true: "a=1,b=x", ".a=1.b=x", ";a=1;b=x" -/
 theorem path_object_explode_roundtrip (fl : Flavour) (name : Str) (st : Sty) (req : Bool)
@@ -427,7 +474,7 @@ theorem path_object_explode_roundtrip (fl : Flavour) (name : Str) (st : Sty) (re
     (kvs : List (Str × Str)) (henc : encodable ⟨.path, st, true⟩ name (.obj kvs) = true) :
     ∃ r, encode ⟨.path, st, true⟩ name (.obj kvs) = some r ∧
       decodeStyled fl ⟨.path, st, true⟩ name req r (.leaf (.obj sprops rq addl)) =
-        match makeObject fl.prim fl.addlShadow kvs sprops addl with
+        match makeObject fl.prim kvs sprops addl with
         | none => ⟨.nilObj, true, some .parse⟩
         | some res => ⟨.obj res, true, none⟩ := by
   have hne : kvs ≠ [] := by
@@ -449,7 +496,7 @@ theorem path_object_explode_roundtrip (fl : Flavour) (name : Str) (st : Sty) (re
     refine ⟨{ path := some (joinL [','] (eqKV kvs)) }, by simp [encode, encPath], ?_⟩
     simp only [decodeStyled, earlyAbsent, decodeValue, decodeLeaf, pathObj, pathObjFmt, pathRaw_some _ (hj ','), cutPrefix,
       List.isPrefixOf, List.length_nil, List.drop_zero]
-    simpa using objOut_eq_roundtrip fl.prim fl.addlShadow ',' (by decide) kvs hne hfree sprops addl
+    simpa using objOut_eq_roundtrip fl.prim ',' (by decide) kvs hne hfree sprops addl
   · have hfree : ∀ kv ∈ kvs, '.' ∉ kv.1 ∧ '.' ∉ kv.2 ∧ '=' ∉ kv.1 ∧ '=' ∉ kv.2 := by
       intro kv hkv
       simp [encodable, encodableObj, objDelims, pathObjFmt, List.all_eq_true, freeOf] at henc
@@ -458,7 +505,7 @@ theorem path_object_explode_roundtrip (fl : Flavour) (name : Str) (st : Sty) (re
     have hraw : ['.'] ++ joinL ['.'] (eqKV kvs) ≠ [] := by simp
     refine ⟨{ path := some (['.'] ++ joinL ['.'] (eqKV kvs)) }, by simp [encode, encPath], ?_⟩
     simp only [decodeStyled, earlyAbsent, decodeValue, decodeLeaf, pathObj, pathObjFmt, pathRaw_some _ hraw, cutPrefix_append]
-    simpa using objOut_eq_roundtrip fl.prim fl.addlShadow '.' (by decide) kvs hne hfree sprops addl
+    simpa using objOut_eq_roundtrip fl.prim '.' (by decide) kvs hne hfree sprops addl
   · have hfree : ∀ kv ∈ kvs, ';' ∉ kv.1 ∧ ';' ∉ kv.2 ∧ '=' ∉ kv.1 ∧ '=' ∉ kv.2 := by
       intro kv hkv
       simp [encodable, encodableObj, objDelims, pathObjFmt, List.all_eq_true, freeOf] at henc
@@ -467,7 +514,7 @@ theorem path_object_explode_roundtrip (fl : Flavour) (name : Str) (st : Sty) (re
     have hraw : [';'] ++ joinL [';'] (eqKV kvs) ≠ [] := by simp
     refine ⟨{ path := some ([';'] ++ joinL [';'] (eqKV kvs)) }, by simp [encode, encPath], ?_⟩
     simp only [decodeStyled, earlyAbsent, decodeValue, decodeLeaf, pathObj, pathObjFmt, pathRaw_some _ hraw, cutPrefix_append]
-    simpa using objOut_eq_roundtrip fl.prim fl.addlShadow ';' (by decide) kvs hne hfree sprops addl
+    simpa using objOut_eq_roundtrip fl.prim ';' (by decide) kvs hne hfree sprops addl
 
 /-- end to end, no side condition left: every non-empty list of int64 values, written in decimal and joined with
 commas, is decoded from a header back to exactly that list by the code's decoder -/
@@ -511,9 +558,9 @@ theorem query_object_roundtrip (fl : Flavour) (name : Str) (req : Bool)
     (kvs : List (Str × Str)) (henc : encodable ⟨.query, .form, false⟩ name (.obj kvs) = true) :
     ∃ r, encode ⟨.query, .form, false⟩ name (.obj kvs) = some r ∧
       decodeStyled fl ⟨.query, .form, false⟩ name req r (.leaf (.obj sprops rq addl)) =
-        match makeObject fl.prim fl.addlShadow kvs sprops addl with
+        match makeObject fl.prim kvs sprops addl with
         | none => ⟨.nilObj, false, some .parse⟩
-        | some res => ⟨.obj res, queryObjFound sprops kvs res, none⟩ := by
+        | some res => ⟨.obj res, objFound fl.presenceAware sprops res (queryObjFound sprops kvs res), none⟩ := by
   have hne : kvs ≠ [] := by
     intro e; subst e; simp [encodable, encodableObj] at henc
   have hfree : ∀ kv ∈ kvs, ',' ∉ kv.1 ∧ ',' ∉ kv.2 := by
@@ -552,7 +599,7 @@ theorem deep_object_roundtrip (fl : Flavour) (name : Str) (req : Bool)
     | cons a b => exact ⟨a, b, rfl⟩
   have hq : (deepEnc name (kv0 :: rest)).isEmpty = false := by simp [deepEnc]
   have hcl := deepClash_pairs (kv0 :: rest)
-  simp only [decodeStyled, earlyAbsent, hq, decodeValue, decodeLeaf, queryDeepFlat, queryDeep, hdp]
+  simp only [decodeStyled, earlyAbsent, hq, decodeValue, decodeLeaf, deepReq_deepEnc fl name hn _ hk, queryDeepFlat, queryDeep, hdp]
   simp only [deepPairs, List.map_cons] at hcl ⊢
   simp only [hcl]
   cases hb : buildDeep fl.prim (([kv0.1], [kv0.2]) :: List.map (fun kv => ([kv.1], [kv.2])) rest)
@@ -565,7 +612,7 @@ theorem deep_object_roundtrip_makeObject (fl : Flavour) (name : Str) (req : Bool
     (kvs : List (Str × Str)) (henc : encodable ⟨.query, .deepObject, true⟩ name (.obj kvs) = true) :
     ∃ r, encode ⟨.query, .deepObject, true⟩ name (.obj kvs) = some r ∧
       decodeStyled fl ⟨.query, .deepObject, true⟩ name req r (.leaf (.obj sprops rq none)) =
-        match makeObject fl.prim fl.addlShadow kvs sprops none with
+        match makeObject fl.prim kvs sprops none with
         | none => ⟨.nilObj, false, some .parse⟩
         | some res => ⟨.obj res, deepFound (sprops.map (fun kv => (kv.1, DS.prim kv.2))) (deepPairs kvs) (liftP res), none⟩ := by
   have hd : distinctKeys kvs = true := by
@@ -674,6 +721,85 @@ theorem decodeValue_singleton (fl : Flavour) (c : Cell) (name : Str) (req : Bool
     subst h2
     simp [decodeValue, decAllOf, decAnyOf, decOneOf, ho, h1]
 
+/-! ### compositions with several alternatives: the loops at the level of decodeStyledParameter, and complete trips -/
+
+/-- anyOf: the first alternative whose decoder yields a value gives the parameter's value; what the earlier ones
+answered (nil, or an error — dropped by the loop) only feeds `found` -/
+theorem decodeStyled_anyOf_first (fl : Flavour) (c : Cell) (name : Str) (req : Bool) (r : Req) (hea : earlyAbsent c r = false)
+    (pre : List Leaf) (l : Leaf) (post : List Leaf)
+    (hpre : ∀ x ∈ pre, (decodeLeaf fl c name r x).val.isNil = true) (hl : (decodeLeaf fl c name r l).val.isNil = false) :
+    decodeStyled fl c name req r (.anyOf (pre ++ l :: post)) =
+      ⟨(decodeLeaf fl c name r l).val, pre.any (fun x => (decodeLeaf fl c name r x).found) || (decodeLeaf fl c name r l).found, none⟩ := by
+  simp only [decodeStyled, hea, Bool.false_eq_true, if_false, decodeValue]
+  simpa using decAnyOf_first (decodeLeaf fl c name r) req l post hl pre false hpre
+
+/-- oneOf: the last alternative whose decoder yields a value gives the parameter's value, without error -/
+theorem decodeStyled_oneOf_last (fl : Flavour) (c : Cell) (name : Str) (req : Bool) (r : Req) (hea : earlyAbsent c r = false)
+    (pre : List Leaf) (l : Leaf) (post : List Leaf)
+    (hpost : ∀ x ∈ post, (decodeLeaf fl c name r x).val.isNil = true) (hl : (decodeLeaf fl c name r l).val.isNil = false) :
+    (decodeStyled fl c name req r (.oneOf (pre ++ l :: post))).val = (decodeLeaf fl c name r l).val ∧
+    (decodeStyled fl c name req r (.oneOf (pre ++ l :: post))).err = none ∧
+    (decodeStyled fl c name req r (.oneOf (pre ++ l :: post))).found =
+      (pre ++ l :: post).any (fun x => (decodeLeaf fl c name r x).found) := by
+  simp only [decodeStyled, hea, Bool.false_eq_true, if_false, decodeValue]
+  have h := decOneOf_last (decodeLeaf fl c name r) req l hl post hpost pre false none
+  refine ⟨h.1, h.2, ?_⟩
+  simpa using decOneOf_found (decodeLeaf fl c name r) req (pre ++ l :: post) false none
+
+/-- allOf: when every alternative decodes the request to a value, the last alternative's value is the parameter's -/
+theorem decodeStyled_allOf_all (fl : Flavour) (c : Cell) (name : Str) (req : Bool) (r : Req) (hea : earlyAbsent c r = false)
+    (pre : List Leaf) (l : Leaf)
+    (hpre : ∀ x ∈ pre, (decodeLeaf fl c name r x).val.isNil = false ∧ (decodeLeaf fl c name r x).err = none)
+    (hl : (decodeLeaf fl c name r l).val.isNil = false ∧ (decodeLeaf fl c name r l).err = none) :
+    decodeStyled fl c name req r (.allOf (pre ++ [l])) =
+      ⟨(decodeLeaf fl c name r l).val, pre.any (fun x => (decodeLeaf fl c name r x).found) || (decodeLeaf fl c name r l).found, none⟩ := by
+  simp only [decodeStyled, hea, Bool.false_eq_true, if_false, decodeValue]
+  simpa using decAllOf_all (decodeLeaf fl c name r) l hl pre false ⟨.nil, false, none⟩ hpre
+
+/-- allOf: the first alternative that fails to decode decides: its error is the parameter's error -/
+theorem decodeStyled_allOf_stop (fl : Flavour) (c : Cell) (name : Str) (req : Bool) (r : Req) (hea : earlyAbsent c r = false)
+    (pre : List Leaf) (l : Leaf) (post : List Leaf)
+    (hpre : ∀ x ∈ pre, (decodeLeaf fl c name r x).val.isNil = false ∧ (decodeLeaf fl c name r x).err = none)
+    (hl : (decodeLeaf fl c name r l).val.isNil = true ∨ (decodeLeaf fl c name r l).err.isSome = true) :
+    decodeStyled fl c name req r (.allOf (pre ++ l :: post)) =
+      ⟨(decodeLeaf fl c name r l).val, pre.any (fun x => (decodeLeaf fl c name r x).found) || (decodeLeaf fl c name r l).found,
+        (decodeLeaf fl c name r l).err⟩ := by
+  simp only [decodeStyled, hea, Bool.false_eq_true, if_false, decodeValue]
+  simpa using decAllOf_stop (decodeLeaf fl c name r) l post hl pre false ⟨.nil, false, none⟩ hpre
+
+/-- a complete multi-alternative trip, no side condition left: `anyOf: [integer, array of integer]` in a header.
+Every list of two or more int64 values, comma-joined, fails the first alternative (the comma is no digit; the
+loop drops that ParseError) and is decoded by the second to exactly the list that was sent — for every name,
+explode flag and `required` -/
+theorem header_anyOf_int_or_array_end_to_end (name : Str) (ex req : Bool)
+    (is : List Int) (h2 : 2 ≤ is.length) (hr : ∀ i ∈ is, -(2 ^ 63 : Int) ≤ i ∧ i < (2 ^ 63 : Int)) :
+    decodeStyled impl ⟨.header, .simple, ex⟩ name req { header := some [joinL [','] (is.map showInt)] }
+      (.anyOf [.prim { t := .integer }, .arr { t := .integer } none none []]) = ⟨.arr (is.map PV.int), true, none⟩ := by
+  have hne : is ≠ [] := by intro e; subst e; simp at h2
+  have harr := header_int_array_end_to_end name ex req none none [] is hne hr
+  have hraw : joinL [','] (is.map showInt) ≠ [] := by
+    apply joinL_ne_nil
+    · simpa using hne
+    · intro x hx
+      obtain ⟨i, _, rfl⟩ := List.mem_map.mp hx
+      exact showInt_ne_nil i
+  have hcomma : ',' ∈ joinL [','] (is.map showInt) := mem_joinL_sep ',' _ (by simpa using h2)
+  have hprim : decodeLeaf impl ⟨.header, .simple, ex⟩ name { header := some [joinL [','] (is.map showInt)] } (.prim { t := .integer }) =
+      ⟨.nil, true, some .parse⟩ := by
+    simp [decodeLeaf, headerPrim, headerRaw, impl, parsePrim, hraw, parseInt10_none_of_comma 64 _ hcomma, optPR, primOut]
+  have hleaf : decodeLeaf impl ⟨.header, .simple, ex⟩ name { header := some [joinL [','] (is.map showInt)] }
+      (.arr { t := .integer } none none []) = ⟨.arr (is.map PV.int), true, none⟩ := by
+    simpa [decodeStyled, earlyAbsent, decodeValue] using harr
+  have h := decodeStyled_anyOf_first impl ⟨.header, .simple, ex⟩ name req { header := some [joinL [','] (is.map showInt)] }
+    (by simp [earlyAbsent]) [.prim { t := .integer }] (.arr { t := .integer } none none []) []
+    (by intro x hx; simp at hx; subst hx; simp [hprim, Val.isNil])
+    (by
+      rw [hleaf]
+      cases is with
+      | nil => contradiction
+      | cons i rest => simp [Val.isNil])
+  simpa [hprim, hleaf] using h
+
 /-! ### parameter names are literal text; absence with other parameters around -/
 
 /-- deepObject selects exactly the query keys that literally start with `name[` — the name is never a pattern
@@ -718,6 +844,9 @@ theorem path_absent_with_others (fl : Flavour) (name : Str) (st : Sty) (ex req :
     rcases hst with rfl | rfl | rfl <;> cases ex <;>
       simp [decodeStyled, earlyAbsent, decodeValue, decodeLeaf, pathObj, pathObjFmt, pathRaw]
   | deep sp rq => exact absurd rfl (hl sp rq)
+  | untyped en =>
+    cases hu : fl.untypedAsString <;> rcases hst with rfl | rfl | rfl <;>
+      simp [decodeStyled, earlyAbsent, decodeValue, decodeLeaf, hu, present, pathPrim, pathPrimPrefix, pathRaw, absent]
 
 /-! ### deepObject with nested objects and arrays (tied by the differential run; concrete behaviour pinned here) -/
 
@@ -742,6 +871,215 @@ theorem deep_nested_examples :
     -- a scalar where an object is declared is handed to validation as a string and rejected there
     validateParameter ⟨⟨.query, .deepObject, true⟩, ['p'], false, false, nestedSch⟩ { query := [("p[o]".toList, [['3']])] } = .schema := by
   decide
+
+/-! ### deepObject at every depth (KinModel/StyleNest.lean: the recursion of makeObject / buildResObj) -/
+
+/-- the node-level round trip, any depth: buildResObj's recursion rebuilds a value from its entries -/
+theorem nest_entries_roundtrip (prim : PT → Str → PR) (f : Nat) (ns : NS) (v : NV) (h : fitsB prim f ns v = true) :
+    nbuild prim f ns (encN v) = some (some v) :=
+  nbuild_encN prim f ns v h
+
+/-- **decode ∘ encode for nested deepObject at every depth**: take any object schema (objects in objects, arrays of
+objects, arrays of arrays … to any depth; no additionalProperties schema) and any value that fits it (`fitsB`: primitive
+texts that read back, arrays without holes, objects selecting declared properties; keys without `]`). Write every
+primitive leaf as `name[k1][k2]…[kn]=text` (`encQ`). Then urlValuesDecoder.DecodeObject — regexp key selection, bracket
+groups, deepSet clash check, buildResObj's recursion with sliceMapToSlice for arrays, the `found` loop — returns exactly
+that value, found, without error: for every parameter name without `[`, both flavours. -/
+theorem nest_roundtrip (prim : PT → Str → PR) (pa : Bool) (name : Str) (hn : '[' ∉ name)
+    (props : List (Str × NS)) (req : List Str) (kvs : List (Str × NV))
+    (hfit : fitsB prim ((NS.obj props req none).depth + 1) (.obj props req none) (.o kvs) = true) :
+    let o := queryNest prim pa name { query := encQ name (encO kvs) } props req none
+    o.val = some kvs ∧ o.found = true ∧ o.err = none := by
+  have hb := nbuild_encN prim _ _ _ hfit
+  have hnc := noClash_encN prim _ _ _ hfit
+  have hsf := segsFree_encN prim _ _ _ hfit
+  have hne := encN_ne_nil prim _ _ _ hfit
+  simp only [encN] at hb hnc hsf hne
+  have hpaths : ∀ a ∈ encO kvs, a.1 ≠ [] := by
+    intro a ha
+    obtain ⟨h1, t1, e1, _⟩ := headsIn_encO kvs a ha
+    simp [e1]
+  have hdp := deepProps_encQ name hn (encO kvs) hpaths hsf
+  have hcl := deepClash_of_noClash (encO kvs) hnc
+  have hmap : (List.map (fun a => (a.1, [a.2])) (encO kvs)).map (fun kv => (kv.1, kv.2.headD [])) = encO kvs := by
+    simp [List.map_map, Function.comp_def]
+  have hfit' := hfit
+  simp only [fitsB, Bool.and_eq_true, Bool.not_eq_true', List.isEmpty_eq_false_iff] at hfit'
+  have hok := kvsOK_of_fitsOB _ props kvs hfit'.2
+  have hprops : props.isEmpty = false := by
+    cases props with
+    | nil =>
+      cases kvs with
+      | nil => exact absurd rfl hfit'.1
+      | cons a b => simp [fitsOB] at hfit'
+    | cons a b => rfl
+  have hfound : nFound props (List.map (fun a => (a.1, [a.2])) (encO kvs)) kvs = true := by
+    cases he : encO kvs with
+    | nil => exact absurd he hne
+    | cons a rest =>
+      have hg := nget_encO prim _ kvs hok a (by rw [he]; simp)
+      simp [nFound, hprops, hg]
+  have hb' : nbuild prim ((NS.obj props req none).depth + 1) (.obj props req none)
+      ((List.map (fun a => (a.1, [a.2])) (encO kvs)).map (fun kv => (kv.1, kv.2.headD []))) = some (some (.o kvs)) := by
+    rw [hmap]; exact hb
+  have hdne : List.map (fun a => (a.1, [a.2])) (encO kvs) ≠ [] := by
+    intro e
+    exact hne (List.map_eq_nil_iff.mp e)
+  simp only [queryNest, hdp]
+  generalize List.map (fun a => (a.1, [a.2])) (encO kvs) = dp at hcl hb' hdne hfound ⊢
+  cases dp with
+  | nil => contradiction
+  | cons d ds =>
+    simp only [hcl, Bool.false_eq_true, if_false]
+    rw [hb']
+    simp [hfound, objFound, hprops]
+
+/-- a schema of depth 5 and a value with objects in objects, an array of objects and an array of arrays: the hypotheses
+of `nest_roundtrip` hold, the keys are the ones a client writes, and the code's flavour decodes them back -/
+def nsDemo : List (Str × NS) :=
+  [(['a'], .prim { t := .integer }),
+   (['o'], .obj [(['x'], .prim { t := .integer }), (['q'], .obj [(['z'], .prim { t := .string }), (['w'], .arr (.prim { t := .integer }))] [] none)] [] none),
+   (['l'], .arr (.obj [(['k'], .prim { t := .integer }), (['s'], .prim { t := .string })] [] none)),
+   (['m'], .arr (.arr (.prim { t := .integer })))]
+
+def nvDemo : List (Str × NV) :=
+  [(['a'], .p (.int 7)),
+   (['o'], .o [(['x'], .p (.int 5)), (['q'], .o [(['z'], .p (.str "dave".toList)), (['w'], .a [.p (.int 1), .p (.int 2)])])]),
+   (['l'], .a [.o [(['k'], .p (.int 3))], .o [(['k'], .p (.int 4)), (['s'], .p (.str ['v']))]]),
+   (['m'], .a [.a [.p (.int 1), .p (.int 2)], .a [.p (.int 3)]])]
+
+theorem nest_demo :
+    fitsB parsePrim ((NS.obj nsDemo [] none).depth + 1) (.obj nsDemo [] none) (.o nvDemo) = true ∧
+    (encQ ['p'] (encO nvDemo)).map (fun kv => kv.1) =
+      ["p[a]", "p[o][x]", "p[o][q][z]", "p[o][q][w][0]", "p[o][q][w][1]", "p[l][0][k]", "p[l][1][k]", "p[l][1][s]",
+       "p[m][0][0]", "p[m][0][1]", "p[m][1][0]"].map String.toList ∧
+    validateNest impl enumHitImpl ⟨['p'], true, false, nsDemo, [], none⟩ { query := encQ ['p'] (encO nvDemo) } = .accept ∧
+    -- a hole in an array of objects is a nil item and rejected by validation; a scalar where an array is declared is a ParseError
+    validateNest impl enumHitImpl ⟨['p'], false, false, nsDemo, [], none⟩ { query := [("p[l][1][k]".toList, [['4']])] } = .schema ∧
+    validateNest impl enumHitImpl ⟨['p'], false, false, nsDemo, [], none⟩ { query := [("p[m][0]".toList, [['4']])] } = .parse ∧
+    validateNest impl enumHitImpl ⟨['p'], false, false, nsDemo, [], none⟩
+      { query := [("p[o][q][w][0]".toList, [['1']]), ("p[o][q]".toList, [['x']])] } = .parse := by
+  decide
+
+/-- on two-level schemas the recursive model and the two-level model of Style.lean (`Leaf.deep`, which the other theorems
+and the generator's D1/D2 streams use) give the same verdicts: the requests of `deep_nested_examples`, both models -/
+theorem nest_agrees_with_deep_examples :
+    let np : NParam := ⟨['p'], false, false,
+      [(['a'], .prim { t := .integer }), (['l'], .arr (.prim { t := .integer })),
+       (['o'], .obj [(['x'], .prim { t := .integer }), (['y'], .prim { t := .string })] [['x']] none)], [], none⟩
+    let dp : Param := ⟨⟨.query, .deepObject, true⟩, ['p'], false, false, nestedSch⟩
+    [ ({ query := [("p[o][x]".toList, [['5']]), ("p[o][y]".toList, [['w']]), ("p[l][1]".toList, [['2']])] } : Req),
+      { query := [("p[o]".toList, [['1']]), ("p[o][x]".toList, [['2']])] },
+      { query := [("p[o][x]".toList, [['1']]), ("p[o][x][q]".toList, [['2']])] },
+      { query := [("p[o][x]".toList, [['z']])] },
+      { query := [("p[o][y]".toList, [['w']])] },
+      { query := [("p[o][x]".toList, [['3']])] },
+      { query := [("p[o]".toList, [['3']])] },
+      { query := [("p[a]".toList, [['1']]), ("p[a]zz".toList, [['x']])] },
+      { query := [("zz".toList, [['1']])] } ].all
+      (fun r => validateNest impl enumHitImpl np r = validateParameter dp r && validateNest spec enumHitSpec np r = validateSpec dp r) = true := by
+  decide
+
+/-! ### content-described parameters (KinModel/StyleContent.lean; json.Unmarshal is the parameter `unm`) -/
+
+/-- one value under a JSON media type: a text that is JSON is decoded to its JSON value, whatever the schema says -/
+theorem content_json_value (unm : Str → Option Val) (leak : Bool) (p : CParam) (r : Req) (t : Str) (v : Val)
+    (hv : contentValues p.loc p.name r = some [t]) (hm : ∃ k, p.media = [k] ∧ mediaIsJSON k = true) (hj : unm t = some v) :
+    decodeContent unm leak p r = .val v := by
+  obtain ⟨k, hk, hkj⟩ := hm
+  simp [decodeContent, hv, hk, hkj, unmarshalC, hj]
+
+/-- a text that is not JSON is taken as the string it is — exactly when a schema is given and it is not an object
+schema; otherwise the parameter is an error -/
+theorem content_not_json (unm : Str → Option Val) (leak : Bool) (p : CParam) (r : Req) (t : Str)
+    (hv : contentValues p.loc p.name r = some [t]) (hm : ∃ k, p.media = [k] ∧ mediaIsJSON k = true) (hj : unm t = none) :
+    decodeContent unm leak p r =
+      match p.schema with
+      | some s => if schIsObject s then .err else .val (.prim (.str t))
+      | none => .err := by
+  obtain ⟨k, hk, hkj⟩ := hm
+  cases hs : p.schema with
+  | none => simp [decodeContent, hv, hk, hkj, unmarshalC, hj, hs]
+  | some s => cases ho : schIsObject s <;> simp [decodeContent, hv, hk, hkj, unmarshalC, hj, hs, ho]
+
+/-- several values are an error everywhere but in the query; the `content` map must hold exactly one JSON-like key -/
+theorem content_structural_errors (unm : Str → Option Val) (leak : Bool) (p : CParam) (r : Req) (vs : List Str)
+    (hv : contentValues p.loc p.name r = some vs)
+    (h : (1 < vs.length ∧ p.loc ≠ .query) ∨ p.media.length ≠ 1 ∨ p.media.all mediaIsJSON = false) :
+    decodeContent unm leak p r = .err := by
+  unfold decodeContent
+  rw [hv]
+  rcases h with ⟨h1, h2⟩ | h | h
+  · have : decide (vs.length > 1) = true := by simpa using h1
+    simp [this, h2]
+  · by_cases h1 : (decide (vs.length > 1) && decide (p.loc ≠ .query)) = true
+    · simp only [h1, if_true]
+    · simp only [h1, if_false, Bool.false_eq_true]
+      simp [h]
+  · by_cases h1 : (decide (vs.length > 1) && decide (p.loc ≠ .query)) = true
+    · simp only [h1, if_true]
+    · by_cases h2 : p.media.length ≠ 1
+      · simp [h1, h2]
+      · simp [h1, h2, h]
+
+/-- the decision after decoding: null is an empty value (rejected unless allowEmptyValue), no schema accepts, otherwise
+the schema decides -/
+theorem content_decision (unm : Str → Option Val) (visit : Sch → Val → Bool) (sentinel : Bool) (p : CParam) (r : Req) (v : Val)
+    (h : decodeContent unm (!sentinel) p r = .val v) :
+    validateContent unm visit sentinel p r =
+      if v.isNilValue then (if p.allowEmpty then .accept else .empty)
+      else match p.schema with
+        | none => .accept
+        | some s => if visit s v then .accept else .schema := by
+  unfold validateContent
+  rw [h]
+  cases hn : v.isNilValue <;> cases ha : p.allowEmpty <;> cases p.schema <;> simp [hn, ha]
+
+/-- code = specification for content-described parameters outside ContentMissing and ContentCookieAbsent -/
+theorem content_flavour_partial (unm : Str → Option Val) (visit : Sch → Val → Bool) (p : CParam) (r : Req)
+    (h9 : ContentMissing p r = false) (h10 : ContentCookieAbsent p r = false) :
+    validateContent unm visit false p r = validateContent unm visit true p r := by
+  cases hv : contentValues p.loc p.name r with
+  | some vs =>
+    have hsame : decodeContent unm (!false) p r = decodeContent unm (!true) p r := by
+      unfold decodeContent; rw [hv]
+    have hnm : decodeContent unm (!true) p r ≠ .missingErr := by
+      unfold decodeContent; rw [hv]
+      simp only
+      repeat' split
+      all_goals simp
+    unfold validateContent
+    rw [hsame]
+    cases hd : decodeContent unm (!true) p r with
+    | missingErr => exact absurd hd hnm
+    | absent => rfl
+    | err => rfl
+    | val v => rfl
+  | none =>
+    unfold validateContent decodeContent
+    rw [hv]
+    have hreq : p.required = false := by simpa [ContentMissing, hv] using h9
+    have hck : p.loc ≠ .cookie := by
+      intro e
+      have hc : r.cookie = none := by
+        cases hcv : r.cookie with
+        | none => rfl
+        | some s => simp [contentValues, e, hcv] at hv
+      simp [ContentCookieAbsent, hreq, e, hc] at h10
+    simp [hreq, hck]
+
+/-- F-C05-9 (ContentMissing) and F-C05-10 (ContentCookieAbsent), whatever json.Unmarshal does: a required content
+parameter that is absent is an unspecific error, not `missing`; an optional content *cookie* that is absent is an error
+(the leaked http.ErrNoCookie), while the same parameter in the query is accepted -/
+theorem content_witnesses (unm : Str → Option Val) (visit : Sch → Val → Bool) :
+    let pq : CParam := ⟨.query, ['p'], true, false, ["application/json".toList], some (.leaf (.prim { t := .integer }))⟩
+    let pc : CParam := ⟨.cookie, ['p'], false, false, ["application/json".toList], some (.leaf (.prim { t := .integer }))⟩
+    let pq2 : CParam := ⟨.query, ['p'], false, false, ["application/json".toList], some (.leaf (.prim { t := .integer }))⟩
+    let r : Req := { query := [("zz".toList, [['1']])] }
+    ContentMissing pq r = true ∧ validateContent unm visit false pq r = .other ∧ validateContent unm visit true pq r = .missing ∧
+    ContentCookieAbsent pc r = true ∧ validateContent unm visit false pc r = .other ∧ validateContent unm visit true pc r = .accept ∧
+    validateContent unm visit false pq2 r = .accept := by
+  simp [ContentMissing, ContentCookieAbsent, validateContent, decodeContent, contentValues, qLookup]
 
 /-! ### where the code and the specification part (exclusion classes), and that they part nowhere else -/
 
@@ -775,10 +1113,267 @@ theorem cookieArr_flavour_partial (prim : PT → Str → PR) (st : Sty) (ex : Bo
     cookieArr prim true st ex r t = cookieArr prim false st ex r t := by
   subst h; simp [cookieArr]
 
-/-- AddlShadow: without an additionalProperties schema the re-decoding loop does not exist -/
-theorem makeObject_shadow_partial (prim : PT → Str → PR) (props : List (Str × Str)) (sprops : List (Str × PS)) :
-    makeObject prim true props sprops none = makeObject prim false props sprops none := by
-  simp [makeObject]
+/-! ### code = specification outside the classes: every single-leaf schema, every cell, every request -/
+
+/-- the two flavours of the form-style object decoder agree whenever the request is outside QueryObjAbsent and the
+schema outside QueryObjNoProps -/
+theorem queryObj_flavour_partial (prim : PT → Str → PR) (name : Str) (st : Sty) (ex : Bool) (r : Req)
+    (sprops : List (Str × PS)) (addl : Option PS)
+    (habs : st = .form → ex = true → addl = none → (firstVals r.query).any (fun kv => hasKey kv.1 sprops) = true)
+    (hnp : sprops = [] → addl = none) :
+    queryObj prim false false name st ex r sprops addl = queryObj prim true true name st ex r sprops addl := by
+  unfold queryObj
+  by_cases hst : st ≠ .form
+  · rw [if_pos hst, if_pos hst]
+  · rw [if_neg hst, if_neg hst]
+    have hst' : st = .form := by
+      cases st <;> simp at hst ⊢
+    have hc : (true && ex && addl.isNone && !(firstVals r.query).any (fun kv => hasKey kv.1 sprops)) = false := by
+      cases ex with
+      | false => simp
+      | true =>
+        cases addl with
+        | some a => simp
+        | none => simp [habs hst' rfl rfl]
+    rw [hc]
+    simp only [Bool.false_and, Bool.false_eq_true, if_false]
+    split
+    · rfl
+    · rfl
+    · next props _ =>
+      cases hm : makeObject prim props sprops addl with
+      | none => rfl
+      | some kvs =>
+        simp only
+        cases sprops with
+        | cons a b => simp [objFound]
+        | nil =>
+          have ha := hnp rfl
+          subst ha
+          rw [makeObject_nil_none] at hm
+          cases hm
+          simp [objFound, queryObjFound]
+
+/-- one leaf: the code's decoder is the specification's outside the three decoder-level classes (stated per leaf) -/
+theorem decodeLeaf_flavour_partial (c : Cell) (name : Str) (r : Req) (l : Leaf) (hea : earlyAbsent c r = false)
+    (hdeep : ∀ sp rq, l = .deep sp rq → c.loc = .query ∧ c.style = .deepObject)
+    (hck : c.loc = .cookie → c.explode = true → leafIsPrim l = true)
+    (hqa : c.loc = .query → c.style = .form → c.explode = true → leafQueryObjAbsent r l = false)
+    (hnp : c.loc = .query → leafNoProps l = false)
+    (hjunk : c.loc = .query → c.style = .deepObject → strictReq name r = r)
+    (hunt : leafUntyped l = false) :
+    decodeLeaf impl c name r l = decodeLeaf spec c name r l := by
+  obtain ⟨loc, st, ex⟩ := c
+  simp only at hdeep hck hqa hnp hjunk
+  cases l with
+  | untyped en => simp [leafUntyped] at hunt
+  | prim ps =>
+    cases loc <;> simp [decodeLeaf, impl, spec, specPrim_eq_parsePrim]
+  | arr items mn mx en =>
+    cases loc <;> simp only [decodeLeaf, impl, spec, specPrim_eq_parsePrim]
+    have hex : ex = false := by
+      cases ex with
+      | false => rfl
+      | true => simpa [leafIsPrim] using hck rfl rfl
+    subst hex
+    simp [cookieArr]
+  | obj sprops rq addl =>
+    cases loc <;> simp only [decodeLeaf, impl, spec, specPrim_eq_parsePrim]
+    · have hnp' : sprops = [] → addl = none := by
+        intro e; subst e
+        cases addl with
+        | none => rfl
+        | some a => simpa [leafNoProps] using hnp rfl
+      split
+      · next hst =>
+        simp only [Flavour.deepReq, Bool.false_eq_true, if_false, if_true, hjunk rfl hst]
+        cases addl with
+        | none => rfl
+        | some a =>
+          simp only
+          cases sprops with
+          | nil => cases hnp' rfl
+          | cons kv rest => simp [queryDeepFlatA, objFound]
+      · apply queryObj_flavour_partial
+        · intro hst hex hadd
+          subst hst hex hadd
+          simpa [leafQueryObjAbsent] using hqa rfl rfl rfl
+        · exact hnp'
+    · have hex : ex = false := by
+        cases ex with
+        | false => rfl
+        | true => simpa [leafIsPrim] using hck rfl rfl
+      subst hex
+      simp [cookieObj]
+  | deep sprops rq =>
+    obtain ⟨hl, hst⟩ := hdeep sprops rq rfl
+    subst hl hst
+    simp [decodeLeaf, impl, spec, specPrim_eq_parsePrim, Flavour.deepReq, hjunk rfl rfl]
+
+/-- **the decoders agree**: for every schema of the model — a leaf or an allOf / anyOf / oneOf over leaves — the code's
+decoder returns exactly what the specification's returns (value, found flag, error) on every request outside the three
+decoder-level classes. `hdeep` is the model's domain (nested property schemas are only modelled under style deepObject). -/
+theorem decodeStyled_impl_eq_spec_partial (p : Param) (r : Req)
+    (hdeep : ∀ l ∈ schLeaves p.schema, ∀ sp rq, l = .deep sp rq → p.cell.loc = .query ∧ p.cell.style = .deepObject)
+    (h1 : CookieExplode p = false) (h3 : QueryObjAbsent p r = false) (h4 : QueryObjNoProps p = false)
+    (h5 : DeepKeyJunk p r = false) (h6 : UntypedSchema p = false) :
+    decodeStyled impl p.cell p.name p.required r p.schema = decodeStyled spec p.cell p.name p.required r p.schema := by
+  obtain ⟨c, name, req, ae, sch⟩ := p
+  simp only at hdeep ⊢
+  unfold decodeStyled
+  cases hea : earlyAbsent c r with
+  | true => simp
+  | false =>
+    simp only [Bool.false_eq_true, if_false]
+    have hleaf : ∀ l ∈ schLeaves sch, decodeLeaf impl c name r l = decodeLeaf spec c name r l := by
+      intro l hl
+      apply decodeLeaf_flavour_partial c name r l hea (hdeep l hl)
+      · intro hloc hex
+        simp only [CookieExplode, hloc, hex, Bool.and_true, decide_true, Bool.true_and] at h1
+        have := any_false_mem _ _ h1 l hl
+        simpa using this
+      · intro hloc hst hex
+        have hq : r.query.isEmpty = false := by
+          cases c with
+          | mk loc st ex => simp only at hloc; subst hloc; simpa [earlyAbsent] using hea
+        simp only [QueryObjAbsent, hloc, hst, hex, hq, Bool.and_true, decide_true, Bool.true_and, Bool.not_false] at h3
+        exact any_false_mem _ _ h3 l hl
+      · intro hloc
+        simp only [QueryObjNoProps, hloc, decide_true, Bool.true_and] at h4
+        exact any_false_mem _ _ h4 l hl
+      · intro hloc hst
+        simp only [DeepKeyJunk, hloc, hst, decide_true, Bool.true_and] at h5
+        exact strictReq_of_noJunk name r h5
+      · exact any_false_mem _ _ h6 l hl
+    cases sch with
+    | leaf l => exact hleaf l (by simp [schLeaves])
+    | allOf ls => exact decAllOf_congr _ _ ls _ _ hleaf
+    | anyOf ls => exact decAnyOf_congr _ _ _ ls _ hleaf
+    | oneOf ls => exact decOneOf_congr _ _ _ ls _ _ hleaf
+
+/-- **code = specification** (the full-strength statement `∀ p r, validateParameter p r = validateSpec p r` is false:
+the four witnesses below). For every parameter with a single-leaf schema — every cell, every name, every request,
+every primitive / array / flat-object / deepObject schema with distinct property names — the verdict of
+ValidateParameter is the specification's verdict outside CookieExplode, EnumGoType, QueryObjAbsent, QueryObjNoProps. -/
+theorem validate_eq_spec_partial (p : Param) (r : Req) (l : Leaf) (hs : p.schema = .leaf l) (hwf : leafWF l)
+    (hdeep : ∀ sp rq, l = .deep sp rq → p.cell.loc = .query ∧ p.cell.style = .deepObject)
+    (h1 : CookieExplode p = false) (h2 : EnumGoType p = false) (h3 : QueryObjAbsent p r = false)
+    (h4 : QueryObjNoProps p = false) (h5 : DeepKeyJunk p r = false) (h6 : UntypedSchema p = false) :
+    validateParameter p r = validateSpec p r := by
+  unfold validateParameter validateSpec
+  rw [decodeStyled_impl_eq_spec_partial p r (by rw [hs]; intro l' hl'; simp [schLeaves] at hl'; subst hl'; exact hdeep) h1 h3 h4 h5 h6]
+  have hg : leafEnumGoType l = false := by
+    simpa [EnumGoType, hs, schLeaves, isComposition] using h2
+  obtain ⟨c, name, req, ae, sch⟩ := p
+  simp only at hs ⊢
+  subst hs
+  have hty : TypedVal l (decodeStyled spec c name req r (.leaf l)).val := by
+    unfold decodeStyled
+    split
+    · exact typed_nil l
+    · exact decodeLeaf_typed spec (by simp [spec, specPrim_eq_parsePrim]) c name r l hwf
+  have hv : visitSch enumHitImpl deepEqImpl (.leaf l) (decodeStyled spec c name req r (.leaf l)).val =
+      visitSch enumHitSpec enumHitSpec (.leaf l) (decodeStyled spec c name req r (.leaf l)).val :=
+    visitLeaf_eq l _ hwf hg hty
+  simp only [decide', hv]
+
+/-- … and for **every composition** (allOf / anyOf / oneOf over leaves, as well as single leaves) whose leaves carry
+no `enum`: code = specification outside the three decoder-level classes, for every value the decoder may hand over —
+EnumGoType cannot arise. (With enums in a composition a value read by one alternative is compared with another
+alternative's enum; that case is tied by the differential run.) -/
+theorem validate_eq_spec_enumfree_partial (p : Param) (r : Req)
+    (hfree : (schLeaves p.schema).all leafEnumFree = true)
+    (hdeep : ∀ l ∈ schLeaves p.schema, ∀ sp rq, l = .deep sp rq → p.cell.loc = .query ∧ p.cell.style = .deepObject)
+    (h1 : CookieExplode p = false) (h3 : QueryObjAbsent p r = false) (h4 : QueryObjNoProps p = false)
+    (h5 : DeepKeyJunk p r = false) (h6 : UntypedSchema p = false) :
+    validateParameter p r = validateSpec p r := by
+  unfold validateParameter validateSpec
+  rw [decodeStyled_impl_eq_spec_partial p r hdeep h1 h3 h4 h5 h6]
+  simp only [decide', visitSch_enumFree enumHitImpl deepEqImpl enumHitSpec enumHitSpec p.schema _ hfree]
+
+example : let p : Param := ⟨⟨.query, .pipeDelimited, false⟩, ['p'], true, false,
+      .oneOf [.arr { t := .integer } (some 2) none [], .prim { t := .string }]⟩
+    (schLeaves p.schema).all leafEnumFree = true ∧ CookieExplode p = false ∧
+    QueryObjAbsent p { query := [(['p'], ["1|2".toList])] } = false ∧ QueryObjNoProps p = false ∧
+    validateParameter p { query := [(['p'], ["1|2".toList])] } = .accept := by decide
+
+/-- non-vacuity: the hypotheses hold for a required matrix-style object parameter with an additionalProperties schema -/
+example : let p : Param := ⟨⟨.path, .matrix, true⟩, "id".toList, true, false,
+      .leaf (.obj [(['a'], { t := .int32, max := some 6 }), (['b'], { t := .string, enum := [.str ['x']] })] [['a']] (some { t := .integer }))⟩
+    CookieExplode p = false ∧ EnumGoType p = false ∧ QueryObjAbsent p { path := some ";a=5;b=x;z=7".toList } = false ∧
+    QueryObjNoProps p = false ∧ validateParameter p { path := some ";a=5;b=x;z=7".toList } = .accept ∧
+    validateParameter p { path := some ";a=7;b=x".toList } = .schema := by decide
+
+/-! ### response headers: the same decoder behind validateResponseHeader -/
+
+/-- the decision of validateResponseHeader once the header decoded without error: accepted iff (found and the decoded
+value — whatever it is, nil included — satisfies the schema) or (not found and not required); missing iff not found
+and required; a schema error iff found and the value does not satisfy the schema -/
+theorem respHeader_decision (fl : Flavour) (visit : Sch → Val → Bool) (name : Str) (st : Sty) (ex required : Bool) (r : Req) (s : Sch)
+    (h : (decodeValue fl ⟨.header, st, ex⟩ name required r s).err = none) :
+    (validateRespHeader fl visit name st ex required r s = .accept ↔
+      ((decodeValue fl ⟨.header, st, ex⟩ name required r s).found = true ∧ visit s (decodeValue fl ⟨.header, st, ex⟩ name required r s).val = true) ∨
+      ((decodeValue fl ⟨.header, st, ex⟩ name required r s).found = false ∧ required = false)) ∧
+    (validateRespHeader fl visit name st ex required r s = .missing ↔
+      ((decodeValue fl ⟨.header, st, ex⟩ name required r s).found = false ∧ required = true)) ∧
+    (validateRespHeader fl visit name st ex required r s = .schema ↔
+      ((decodeValue fl ⟨.header, st, ex⟩ name required r s).found = true ∧ visit s (decodeValue fl ⟨.header, st, ex⟩ name required r s).val = false)) := by
+  unfold validateRespHeader
+  generalize decodeValue fl ⟨.header, st, ex⟩ name required r s = o at h ⊢
+  obtain ⟨v, f, e⟩ := o
+  simp only at h
+  subst h
+  cases f <;> cases required <;> cases hv : visit s v <;> simp [hv]
+
+/-- a decode error is reported with its kind -/
+theorem respHeader_error (fl : Flavour) (visit : Sch → Val → Bool) (name : Str) (st : Sty) (ex required : Bool) (r : Req) (s : Sch) (e : DErr)
+    (h : (decodeValue fl ⟨.header, st, ex⟩ name required r s).err = some e) :
+    validateRespHeader fl visit name st ex required r s = errVerdict e := by
+  simp [validateRespHeader, h]
+
+/-- an absent response header: missing iff required, for every leaf schema and both explode settings -/
+theorem respHeader_absent (fl : Flavour) (visit : Sch → Val → Bool) (name : Str) (ex required : Bool) (l : Leaf) :
+    validateRespHeader fl visit name .simple ex required {} (.leaf l) = if required then .missing else .accept := by
+  cases l <;> cases required <;> cases hu : fl.untypedAsString <;>
+    simp [validateRespHeader, decodeValue, decodeLeaf, hu, present, headerPrim, headerArr, headerObj, headerRaw, headerFound]
+
+/-- a response header that is present with an empty value decodes to nil and is validated as null: every primitive
+or array schema rejects it (the request side answers `empty`, or accepts under allowEmptyValue) -/
+theorem respHeader_empty_value_rejected (fl : Flavour) (hit arrEq : EV → PV → Bool) (name : Str) (ex required : Bool) (l : Leaf)
+    (hl : (∃ ps, l = .prim ps) ∨ (∃ it mn mx en, l = .arr it mn mx en)) (hp : fl.prim = parsePrim ∨ fl.prim = specPrim) :
+    validateRespHeader fl (visitSch hit arrEq) name .simple ex required { header := some [[]] } (.leaf l) = .schema := by
+  have hnil : fl.prim = parsePrim := by
+    rcases hp with h | h
+    · exact h
+    · rw [h, specPrim_eq_parsePrim]
+  rcases hl with ⟨ps, rfl⟩ | ⟨it, mn, mx, en, rfl⟩
+  · simp [validateRespHeader, decodeValue, decodeLeaf, headerPrim, headerRaw, hnil, parsePrim, primOut, visitSch, visitLeaf]
+  · simp [validateRespHeader, decodeValue, decodeLeaf, headerArr, headerRaw, hnil, splitOn, splitS, parseArr, parsePrim, arrOut,
+      visitSch, visitLeaf]
+
+/-- a header that is present and decodes to a value is judged exactly as the request-side header parameter with the same
+schema: one decoder, one schema check -/
+theorem respHeader_eq_param (name : Str) (st : Sty) (ex required ae : Bool) (r : Req) (s : Sch)
+    (hf : (decodeValue impl ⟨.header, st, ex⟩ name required r s).found = true)
+    (hn : (decodeValue impl ⟨.header, st, ex⟩ name required r s).val.isNilValue = false) :
+    respHeaderImpl name st ex required r s = validateParameter ⟨⟨.header, st, ex⟩, name, required, ae, s⟩ r := by
+  unfold respHeaderImpl validateRespHeader validateParameter decide' decodeStyled
+  simp only [earlyAbsent, Bool.false_eq_true, if_false, hf, hn, Bool.not_true, Bool.and_false, if_true]
+
+/-- code = specification for response headers: every single-leaf schema outside EnumGoType (the decoder-level classes do
+not touch headers) -/
+theorem respHeader_eq_spec_partial (name : Str) (st : Sty) (ex required : Bool) (r : Req) (l : Leaf) (hwf : leafWF l)
+    (hdeep : ∀ sp rq, l ≠ .deep sp rq) (h2 : leafEnumGoType l = false) (h6 : leafUntyped l = false) :
+    respHeaderImpl name st ex required r (.leaf l) = respHeaderSpec name st ex required r (.leaf l) := by
+  unfold respHeaderImpl respHeaderSpec validateRespHeader
+  have hd : decodeLeaf impl ⟨.header, st, ex⟩ name r l = decodeLeaf spec ⟨.header, st, ex⟩ name r l :=
+    decodeLeaf_flavour_partial ⟨.header, st, ex⟩ name r l (by simp [earlyAbsent])
+      (fun sp rq e => absurd e (hdeep sp rq)) (by simp) (by simp) (by simp) (by simp) h6
+  have hty : TypedVal l (decodeLeaf spec ⟨.header, st, ex⟩ name r l).val :=
+    decodeLeaf_typed spec (by simp [spec, specPrim_eq_parsePrim]) _ name r l hwf
+  simp only [decodeValue, hd, visitSch]
+  rw [visitLeaf_eq l _ hwf h2 hty]
+  rfl
 
 /-! ### witnesses: inside each class the code's verdict differs from the specification's -/
 
@@ -802,6 +1397,16 @@ theorem enum_gotype_witness :
     EnumGoType p2 = true ∧ validateParameter p2 r2 = .schema ∧ validateSpec p2 r2 = .accept := by
   decide
 
+/-- #42 across alternatives: `allOf: [{type: integer, enum: [5, 12]}, {type: integer, format: int32}]` with the path
+value `5`: the value is the int32 read by the last alternative, the first alternative's enum holds float64s -/
+theorem enum_gotype_cross_witness :
+    let p : Param := ⟨⟨.path, .simple, false⟩, ['p'], true, false,
+      .allOf [.prim { t := .integer, enum := [.num 5 0, .num 12 0] }, .prim { t := .int32 }]⟩
+    let r : Req := { path := some ['5'] }
+    EnumGoType p = true ∧ (schLeaves p.schema).any leafEnumGoType = false ∧
+    validateParameter p r = .schema ∧ validateSpec p r = .accept := by
+  decide
+
 /-- regression (former witness of F-C05-3): ?id=010 against `maximum: 9` is ten and is rejected by both sides -/
 theorem nondecimal_int_regression :
     let p : Param := ⟨⟨.query, .form, true⟩, "id".toList, false, false, .leaf (.prim { t := .integer, max := some 9 })⟩
@@ -810,12 +1415,21 @@ theorem nondecimal_int_regression :
     (decodeStyled impl p.cell p.name false r p.schema).val = .prim (.int 10) := by
   decide
 
-/-- AddlShadow: header `p: n,1.5` with properties {n: number}, additionalProperties {integer} -/
-theorem addl_shadow_witness :
+/-- regression (former witness of F-C05-4, class AddlShadow, repaired in 997bea5): header `p: n,1.5` with properties
+{n: number} and additionalProperties {integer}: the declared property keeps the value decoded with its own schema
+(before: re-decoded as an integer → ParseError; `n,2` came out as the int64 2); an undeclared key still goes through
+the additionalProperties schema. Code and specification agree on all of them. -/
+theorem addl_shadow_regression :
     let p : Param := ⟨⟨.header, .simple, false⟩, ['p'], false, false,
       .leaf (.obj [(['n'], { t := .number })] [] (some { t := .integer }))⟩
     let r : Req := { header := some ["n,1.5".toList] }
-    AddlShadow p = true ∧ validateParameter p r = .parse ∧ validateSpec p r = .accept := by
+    let r2 : Req := { header := some ["n,2,z,7".toList] }
+    let r3 : Req := { header := some ["n,2,z,1.5".toList] }
+    validateParameter p r = .accept ∧ validateSpec p r = .accept ∧
+    (decodeStyled impl p.cell p.name false r p.schema).val = .obj [(['n'], .num 15 (-1))] ∧
+    decodeStyled impl p.cell p.name false r2 p.schema = ⟨.obj [(['n'], .num 2 0), (['z'], .int 7)], true, none⟩ ∧
+    decodeStyled spec p.cell p.name false r2 p.schema = decodeStyled impl p.cell p.name false r2 p.schema ∧
+    validateParameter p r3 = .parse ∧ validateSpec p r3 = .parse := by
   decide
 
 /-- QueryObjAbsent: `?zz=1`, optional exploded object `{required: [a], properties: {a: integer}}`: the parameter is
@@ -827,12 +1441,84 @@ theorem query_obj_absent_witness :
     (decodeStyled impl p.cell p.name false r p.schema).val = .obj [] := by
   decide
 
+/-- F-C05-6 (QueryObjNoProps): a free-form map `{type: object, additionalProperties: {type: string}}` as a required
+query parameter: `?filter[name]=x` (deepObject) and `?p=k,v` (form, explode=false) decode to the object that was sent,
+yet `found` stays false — it is only ever set inside the loop over the declared properties — and the supplied
+parameter is reported missing. The same text in a header is found. -/
+theorem query_obj_noprops_witness :
+    let sch : Sch := .leaf (.obj [] [] (some { t := .string }))
+    let p : Param := ⟨⟨.query, .deepObject, true⟩, "filter".toList, true, false, sch⟩
+    let r : Req := { query := [("filter[name]".toList, ["x".toList])] }
+    let p2 : Param := ⟨⟨.query, .form, false⟩, ['p'], true, false, sch⟩
+    let r2 : Req := { query := [(['p'], ["k,v".toList])] }
+    let p3 : Param := ⟨⟨.header, .simple, false⟩, ['p'], true, false, sch⟩
+    QueryObjNoProps p = true ∧ validateParameter p r = .missing ∧ validateSpec p r = .accept ∧
+    decodeStyled impl p.cell p.name true r sch = ⟨.obj [("name".toList, .str ['x'])], false, none⟩ ∧
+    QueryObjNoProps p2 = true ∧ validateParameter p2 r2 = .missing ∧ validateSpec p2 r2 = .accept ∧
+    decodeStyled impl p2.cell p2.name true r2 sch = ⟨.obj [(['k'], .str ['v'])], false, none⟩ ∧
+    QueryObjNoProps p3 = false ∧ validateParameter p3 { header := some ["k,v".toList] } = .accept := by
+  decide
+
+/-- F-C05-7 (DeepKeyJunk): `?p[a]=1&p[a]zz=x` against `{a: integer}`, style deepObject. `p[a]zz` is not a key of `p`
+(the specification ignores it and accepts `{a: 1}`); the code reads only its bracket groups, so both keys land on the
+map key "a" and the iteration order of `url.Values` decides which text survives: the model evaluated on the two
+orders gives `{a: 1}` / accept and a ParseError — the same request is accepted or rejected from run to run. A junk key
+alone (`?p[a]zz=5`) is decoded as `p[a]=5`. -/
+theorem deep_key_junk_witness :
+    let sch : Sch := .leaf (.deep [(['a'], .prim { t := .integer })] [])
+    let p : Param := ⟨⟨.query, .deepObject, true⟩, ['p'], false, false, sch⟩
+    let r1 : Req := { query := [("p[a]".toList, [['1']]), ("p[a]zz".toList, [['x']])] }
+    let r2 : Req := { query := [("p[a]zz".toList, [['x']]), ("p[a]".toList, [['1']])] }
+    let r3 : Req := { query := [("p[a]zz".toList, [['5']])] }
+    DeepKeyJunk p r1 = true ∧ validateParameter p r1 = .accept ∧ validateParameter p r2 = .parse ∧
+    validateSpec p r1 = .accept ∧ validateSpec p r2 = .accept ∧
+    (decodeStyled spec p.cell p.name false r2 sch).val = .dobj [(['a'], .p (.int 1))] ∧
+    DeepKeyJunk p r3 = true ∧ (decodeStyled impl p.cell p.name false r3 sch).val = .dobj [(['a'], .p (.int 5))] ∧
+    decodeStyled spec p.cell p.name false r3 sch = absentObj := by
+  decide
+
+/-- F-C05-8 (UntypedSchema): `?q=abc` against `schema: {}` (or `{enum: [abc, x]}`: no `type`): decodeValue never reads
+the text — it falls through to its last switch and returns (nil, found=true) — and ValidateParameter reports the present
+parameter as an *empty value*; the specification reads the text as a string and accepts. The same in a header, a
+cookie and a path; a response header with such a schema is rejected whenever it is present (nil is validated). -/
+theorem untyped_schema_witness :
+    let p : Param := ⟨⟨.query, .form, true⟩, ['q'], false, false, .leaf (.untyped [])⟩
+    let pe : Param := ⟨⟨.header, .simple, false⟩, ['q'], true, false, .leaf (.untyped [.str "abc".toList, .str ['x']])⟩
+    let r : Req := { query := [(['q'], ["abc".toList])] }
+    let rh : Req := { header := some ["abc".toList] }
+    UntypedSchema p = true ∧ validateParameter p r = .empty ∧ validateSpec p r = .accept ∧
+    decodeStyled impl p.cell p.name false r p.schema = ⟨.nil, true, none⟩ ∧
+    decodeStyled spec p.cell p.name false r p.schema = ⟨.prim (.str "abc".toList), true, none⟩ ∧
+    UntypedSchema pe = true ∧ validateParameter pe rh = .empty ∧ validateSpec pe rh = .accept ∧
+    validateSpec pe { header := some ["zz".toList] } = .schema ∧
+    respHeaderImpl ['q'] .simple false false rh (.leaf (.untyped [])) = .schema ∧
+    respHeaderSpec ['q'] .simple false false rh (.leaf (.untyped [])) = .accept := by
+  decide
+
+/-- well-formed keys are exactly `name[s1]…[sn]`; text after, between or instead of the closing bracket is junk -/
+theorem wellFormedKey_examples :
+    wellFormedKey ['p'] "p[a]".toList = true ∧ wellFormedKey ['p'] "p[o][x]".toList = true ∧
+    wellFormedKey ['p'] "p[a]zz".toList = false ∧ wellFormedKey ['p'] "p[a][".toList = false ∧
+    wellFormedKey ['p'] "p[a]x[b]".toList = false ∧ wellFormedKey ['p'] "p[a]]".toList = false ∧
+    wellFormedKey ['p'] "pq[a]".toList = true ∧ wellFormedKey ['p'] "zz".toList = true := by
+  decide
+
+/-- outside the class (some property is declared, or the flag is the code's) `found` is the code's own computation -/
+theorem objFound_partial {β γ : Type} (pa : Bool) (sprops : List (Str × β)) (val : List (Str × γ)) (cf : Bool)
+    (h : pa = false ∨ sprops ≠ []) : objFound pa sprops val cf = cf := by
+  unfold objFound
+  rcases h with h | h
+  · simp [h]
+  · cases sprops with
+    | nil => contradiction
+    | cons a b => simp
+
 /-- outside the class (a declared property is present, or the object has an additionalProperties schema, or the
 cell is not query/form/explode) the two flavours of `queryObj` coincide -/
-theorem queryObj_absent_partial (prim : PT → Str → PR) (shadow : Bool) (name : Str) (st : Sty) (ex : Bool) (r : Req)
+theorem queryObj_absent_partial (prim : PT → Str → PR) (pa : Bool) (name : Str) (st : Sty) (ex : Bool) (r : Req)
     (sprops : List (Str × PS)) (addl : Option PS)
     (h : ex = false ∨ addl.isSome = true ∨ (firstVals r.query).any (fun kv => hasKey kv.1 sprops) = true) :
-    queryObj prim shadow true name st ex r sprops addl = queryObj prim shadow false name st ex r sprops addl := by
+    queryObj prim true pa name st ex r sprops addl = queryObj prim false pa name st ex r sprops addl := by
   unfold queryObj
   rcases h with h | h | h
   · simp [h]
@@ -880,6 +1566,52 @@ theorem styleDefaults_eq_model :
     Gen.styleDefaults.all (fun r => match r with
       | .dflt l st ex => decide (defaultMethod l = (st, ex))
       | .unrecognised _ => false) = true := by
+  decide
+
+/-! ### translator table DecoderFmt (regenerated from openapi3filter/req_resp_decoder.go on every run) -/
+
+/-- the extractor understood every case, guard and argument it met -/
+theorem decoderFmt_recognised : Gen.decoderFmt.all FmtRow.ok = true := by decide
+
+/-- the prefixes and delimiters of pathParamDecoder (DecodePrimitive / DecodeArray / DecodeObject) in the source are the
+model's, for every style and explode flag — styles the switches do not list end in "invalid serialization method" in
+both. With `pathPrimPrefix_sym`, `pathArrFmt_sym`, `pathObjFmt_sym` (the model's functions are these symbols evaluated at
+the parameter name) the constants of every path round-trip theorem above are the code's, for every name. -/
+theorem decoderFmt_path_eq_model :
+    allStyles.all (fun st => decide (tblPathPrim Gen.decoderFmt st = symPathPrim st) &&
+      [false, true].all (fun ex => decide (tblPathArr Gen.decoderFmt st ex = symPathArr st ex) &&
+        decide (tblPathObj Gen.decoderFmt st ex = symPathObj st ex))) = true := by
+  decide
+
+/-- the delimiters of urlValuesDecoder.DecodeArray (explode=false) are the model's `queryDelim` -/
+theorem decoderFmt_query_delim_eq_model :
+    allStyles.all (fun st => decide (tblQueryDelim Gen.decoderFmt st = symQueryDelim st)) = true := by
+  decide
+
+/-- the style guards of the query / header / cookie decoders, and the comma / equals constants of their strings.Split and
+propsFromString calls, are the ones the model uses (`queryPrim`: form only; `queryArr`: not deepObject; header: simple only,
+"," and valueDelim "," / "="; cookie: form only, "," — and the `|| sm.Explode` of F-C05-1 is present exactly where the
+code's flavour `impl.cookieExplodeBad` says) -/
+theorem decoderFmt_guards_and_calls :
+    [ FmtRow.guard "urlValuesDecoder.DecodePrimitive" "form" true false,
+      .guard "urlValuesDecoder.DecodeArray" "deepObject" false false,
+      .call "urlValuesDecoder.DecodeObject" "propsFromString" [.lit ",", .lit ","],
+      .guard "headerParamDecoder.DecodePrimitive" "simple" true false,
+      .guard "headerParamDecoder.DecodeArray" "simple" true false,
+      .call "headerParamDecoder.DecodeArray" "strings.Split" [.lit ","],
+      .guard "headerParamDecoder.DecodeObject" "simple" true false,
+      .assign "headerParamDecoder.DecodeObject" "valueDelim" (.lit ","),
+      .assign "headerParamDecoder.DecodeObject" "valueDelim" (.lit "="),
+      .call "headerParamDecoder.DecodeObject" "propsFromString" [.lit ",", .ident "valueDelim"],
+      .guard "cookieParamDecoder.DecodePrimitive" "form" true false,
+      .guard "cookieParamDecoder.DecodeArray" "form" true impl.cookieExplodeBad,
+      .call "cookieParamDecoder.DecodeArray" "strings.Split" [.lit ","],
+      .guard "cookieParamDecoder.DecodeObject" "form" true impl.cookieExplodeBad,
+      .call "cookieParamDecoder.DecodeObject" "propsFromString" [.lit ",", .lit ","] ].all
+      (fun r => Gen.decoderFmt.contains r) = true ∧
+    -- nothing else guards, splits or assigns in these methods
+    (Gen.decoderFmt.filter (fun r => match r with | .guard _ _ _ _ => true | _ => false)).length = 8 ∧
+    (Gen.decoderFmt.filter (fun r => match r with | .assign _ _ _ => true | _ => false)).length = 2 := by
   decide
 
 end KinModel.Style
